@@ -893,6 +893,11 @@ pub fn run(cx: &mut Cx) {
                 if !cx.mine(case) || huge < 2 {
                     continue;
                 }
+                // Step budget proportional to the work the histories demand of an
+                // entry of this size (every observation prints or copies all of
+                // it); C07 is not about promptness, the budget only stops a runaway.
+                let total = (huge * limit) as u64;
+                cx.set_budget((total * 1024).max(1 << 24), (total * 65_536).max(1 << 30));
                 cx.check(
                     || format!("{huge} values of about {limit} bytes in one entry: variables {:?}", (0..NVARS).filter(|&v| m.get(v).is_some()).map(|v| VARS[v].name).collect::<Vec<_>>()),
                     |ev| {
@@ -904,6 +909,61 @@ pub fn run(cx: &mut Cx) {
             }
         }
     }
+
+    cx.default_budget();
+
+    // (b5) the count ladder for list variables: exactly n lines for n at the
+    // binary and the decimal round numbers (a printer or builder that works in
+    // batches of 2^k or 10^k lines has its seam exactly there), one less, one
+    // more
+    if cx.tier != Tier::Mini {
+        let mut r = cx.shared_stream("list-count-ladder");
+        let mut counts: Vec<usize> = vec![];
+        for c in [100usize, 256, 500, 1000, 1024, 2000, 4096, 5000, 10_000] {
+            counts.extend([c - 1, c, c + 1]);
+        }
+        if cx.tier == Tier::Thorough {
+            for c in [3000usize, 8192, 20_000, 65_536, 100_000] {
+                counts.extend([c - 1, c, c + 1]);
+            }
+        }
+        if cx.tier == Tier::Small {
+            counts.retain(|c| *c <= 2001);
+        }
+        let lists: Vec<usize> = (0..NVARS).filter(|&v| VARS[v].kind == Kind::A).collect();
+        for (k, &n) in counts.iter().enumerate() {
+            let mut m = gs::model(&mut r, false, 1, 3);
+            let var = lists[k % lists.len()];
+            let l: Vec<String> = (0..n).map(|i| if i % 97 == 13 { String::new() } else { format!("line{i}") }).collect();
+            m.set(var, Val::A(l));
+            // (an observation after every call would cost n^2 / 2 lines printed:
+            // long lists are observed at the end of two different histories)
+            let hists = if n > 1100 {
+                (0..2)
+                    .map(|_| {
+                        let h = gs::history(&mut r, &m);
+                        gs::observed(&mut r, &h, ObsMode::None)
+                    })
+                    .collect()
+            } else {
+                histories(&mut r, &m)
+            };
+            if !cx.mine(k as u64) {
+                continue;
+            }
+            cx.set_budget(((n as u64) << 16).max(1 << 24), ((n as u64) << 26).max(1 << 30));
+            cx.check(
+                || format!("{n} lines in {}", VARS[var].name),
+                |ev| {
+                    ev.count("workload/list_count_ladder");
+                    ev.max("max/list_lines", n as u64);
+                    check_model(ev, &m, &hists)
+                },
+            );
+        }
+    }
+
+    cx.default_budget();
 
     // (d) histories that continue a parsed entry: parse the canonical text of
     // a complete entry B, then go on with set_*/push_* calls (and observation
